@@ -87,13 +87,25 @@ def run_history(ops):
                     _model_log(model, 1, tag="end")
                 else:
                     for _ in range(count):
-                        log_message(message_type="c12:m", n=model.n)
+                        if op[1] % 5 == 4:
+                            # the message has a field of its own named like a global field: the global value is
+                            # what every delivered message carries
+                            log_message(message_type="c12:m", n=model.n, g0="own")
+                        else:
+                            log_message(message_type="c12:m", n=model.n)
                         _model_log(model, 1)
                 info["logs"] += count
                 if not model.any_added:
                     info["buffered_max"] = max(info["buffered_max"], len(model.buffer))
                     if model.n > 1000:
                         info["over_cap"] = True
+            elif kind == "add0":
+                # add_destinations() with nothing to add (an empty configuration): still the first call
+                fresh.add()
+                if not model.any_added:
+                    model.any_added = True
+                    model.buffer = []
+                    info["empty_first_add"] = True
             elif kind == "add":
                 count = 1 + op[1] % 3
                 new_ids = []
@@ -252,6 +264,10 @@ def history_runner(mod, facet, tier, seed, shard, nshards, stats):
         def twin(self, k):
             self.ops.append(["twin", k])
 
+        @rule()
+        def add_nothing(self):
+            self.ops.append(["add0"])
+
         @rule(key=st.integers(0, 2), value=st.integers(0, 5))
         def set_global(self, key, value):
             self.ops.append(["global", key, value])
@@ -308,6 +324,8 @@ def classify_history(case, info):
         labels.append("globals")
     if info.get("twins"):
         labels.append("equal-twin-registered")
+    if info.get("empty_first_add"):
+        labels.append("first-add-call-had-no-destinations")
     if info.get("removed_one_of_equal_twins"):
         labels.append("one-of-two-equal-registrations-removed")
     nontrivial = (info["adds"] >= 2 and info["removes"] >= 1 and info["buffered_then_added"]) or (info["over_cap"] and info["buffered_then_added"])
@@ -537,7 +555,7 @@ def ops_strategy():
     add = st.tuples(st.just("add"), st.integers(0, 2)).map(list)
     remove = st.tuples(st.just("remove"), st.integers(0, 5)).map(list)
     glob = st.tuples(st.just("global"), st.integers(0, 2), st.integers(0, 5)).map(list)
-    before = st.lists(st.one_of(log, small_log, small_log, glob), max_size=4)
+    before = st.lists(st.one_of(log, small_log, small_log, glob, st.just(["add0"])), max_size=4)
     twin = st.tuples(st.just("twin"), st.integers(0, 5)).map(list)
     after = st.lists(st.one_of(small_log, small_log, add, remove, glob, log, twin, remove), max_size=10)
     return st.tuples(before, add, after).map(lambda t: {"ops": t[0] + [t[1]] + t[2]})
